@@ -1,7 +1,322 @@
-//! C19 (to be filled in)
+//! C19 — libfs sparse maps never hide data: every byte outside reported ranges is zero
+
 use super::*;
-pub fn run(_ctx: &Ctx) -> Report {
-    let mut r = Report::new("model_checking", "not implemented");
-    r.machinery_errors.push("C19 not implemented yet".into());
-    r
+use crate::scen::{write_content, Content};
+use serde::{Deserialize, Serialize};
+use serde_json::json;
+use std::os::unix::fs::FileExt;
+
+fn parse_ranges(s: &str) -> Result<Vec<(u64, u64, bool)>, String> {
+    let s = s.trim();
+    if s.is_empty() {
+        return Ok(vec![]);
+    }
+    s.split(',')
+        .map(|r| {
+            let shared = r.ends_with('s');
+            let r = r.trim_end_matches('s');
+            let (a, b) = r.split_once('-').ok_or_else(|| format!("bad range {}", r))?;
+            Ok((a.parse::<u64>().map_err(|e| e.to_string())?, b.parse::<u64>().map_err(|e| e.to_string())?, shared))
+        })
+        .collect()
+}
+
+/// merge oracle for one (input, output) pair
+pub fn check_merge(input: &[(u64, u64, bool)], output: &[(u64, u64, bool)]) -> Option<String> {
+    // ordered and non-overlapping
+    for w in output.windows(2) {
+        if w[0].1 > w[1].0 || w[0].0 > w[1].0 {
+            return Some("output not ordered / overlapping".into());
+        }
+    }
+    for o in output {
+        if o.0 > o.1 {
+            return Some("output range with start > end".into());
+        }
+    }
+    // covers the union of the inputs
+    for i in input {
+        let mut pos = i.0;
+        while pos < i.1 {
+            match output.iter().find(|o| o.0 <= pos && pos < o.1) {
+                Some(o) => pos = o.1,
+                None => return Some(format!("input byte {} is not covered by the merged ranges", pos)),
+            }
+        }
+    }
+    // begin and end at input boundaries
+    for o in output {
+        if !input.iter().any(|i| i.0 == o.0) {
+            return Some(format!("merged range starts at {} which is no input start", o.0));
+        }
+        if !input.iter().any(|i| i.1 == o.1) {
+            return Some(format!("merged range ends at {} which is no input end", o.1));
+        }
+    }
+    // adds nothing but gaps between consecutive inputs that were merged into one range
+    for o in output {
+        let mut pos = o.0;
+        while pos < o.1 {
+            if let Some(i) = input.iter().find(|i| i.0 <= pos && pos < i.1) {
+                pos = i.1;
+                continue;
+            }
+            // pos lies in a gap: it must be between two consecutive inputs both inside this output range
+            let prev = input.iter().filter(|i| i.1 <= pos).last();
+            let next = input.iter().find(|i| i.0 > pos);
+            match (prev, next) {
+                (Some(p), Some(n)) if p.0 >= o.0 && n.1 <= o.1 => pos = n.0,
+                _ => return Some(format!("merged range covers byte {} which is neither input nor a gap between merged inputs", pos)),
+            }
+        }
+    }
+    None
+}
+
+/// a map of a real file: ordered, non-overlapping (empty ranges allowed), every byte outside reads zero
+pub fn check_map(what: &str, ranges: &[(u64, u64, bool)], data: &[u8]) -> Option<String> {
+    for w in ranges.windows(2) {
+        if w[0].1 > w[1].0 || w[0].0 > w[1].0 {
+            return Some(format!("{}: ranges not ordered / overlapping: {:?} then {:?}", what, w[0], w[1]));
+        }
+    }
+    for r in ranges {
+        if r.0 > r.1 {
+            return Some(format!("{}: range with start > end {:?}", what, r));
+        }
+    }
+    let mut pos = 0usize;
+    let mut idx = 0;
+    while pos < data.len() {
+        while idx < ranges.len() && (ranges[idx].1 as usize) <= pos {
+            idx += 1;
+        }
+        if idx < ranges.len() && (ranges[idx].0 as usize) <= pos {
+            pos = ranges[idx].1 as usize;
+            continue;
+        }
+        let upto = if idx < ranges.len() { (ranges[idx].0 as usize).min(data.len()) } else { data.len() };
+        if let Some(k) = data[pos..upto].iter().position(|&b| b != 0) {
+            return Some(format!("{}: byte {} is {:#04x} but lies outside every reported range", what, pos + k, data[pos + k]));
+        }
+        pos = upto;
+    }
+    None
+}
+
+#[derive(Serialize, Deserialize, Clone)]
+struct FileJob {
+    name: String,
+    content: Content,
+    tmpfs: bool,
+}
+
+#[derive(Serialize, Deserialize, Default)]
+struct Acc {
+    evals: u64,
+    nontrivial: u64,
+    violations: Vec<(String, serde_json::Value)>,
+    errors: Vec<String>,
+    samples: Vec<String>,
+}
+
+fn probe(w: &Worker, path: &str, scratch: &str) -> Result<std::collections::BTreeMap<String, String>, String> {
+    let out = std::process::Command::new(&w.bins.apiprobe).args(["extents", path, scratch]).output().map_err(|e| format!("apiprobe: {}", e))?;
+    if !out.status.success() {
+        return Err(format!("apiprobe extents failed: {}", String::from_utf8_lossy(&out.stderr)));
+    }
+    let mut m = std::collections::BTreeMap::new();
+    for l in String::from_utf8_lossy(&out.stdout).lines() {
+        let (k, v) = l.split_once(' ').unwrap_or((l, ""));
+        m.insert(k.to_string(), v.to_string());
+    }
+    Ok(m)
+}
+
+fn check_file_maps(w: &Worker, job: &FileJob, acc: &mut Acc) {
+    let base = if job.tmpfs { w.base_tmpfs.clone() } else { w.base_ext4.clone() };
+    let path = format!("{}/c19-file", base);
+    let scratch = format!("{}/c19-scratch", base);
+    let _ = std::fs::remove_file(&path);
+    if let Err(e) = write_content(std::path::Path::new(&path), &job.content) {
+        acc.errors.push(e);
+        return;
+    }
+    let data = job.content.bytes();
+    for phase in ["just-written", "after-fsync"] {
+        if phase == "after-fsync" {
+            if let Ok(f) = std::fs::File::open(&path) {
+                let _ = f.sync_all();
+                // read back through the file to be sure the oracle's bytes are the file's bytes
+                let mut b = vec![0u8; data.len()];
+                let _ = f.read_exact_at(&mut b, 0);
+                if b != data {
+                    acc.errors.push(format!("{}: file content differs from what was written", job.name));
+                }
+            }
+        }
+        let m = match probe(w, &path, &scratch) {
+            Ok(m) => m,
+            Err(e) => {
+                acc.errors.push(e);
+                return;
+            }
+        };
+        acc.evals += 1;
+        let mut nontrivial = false;
+        if m.contains_key("segments-stuck") {
+            acc.violations.push((format!("{} [{}]: next_sparse_segments does not advance", job.name, phase), json!(m)));
+        }
+        for key in ["extents", "merged", "segments"] {
+            let val = match m.get(key) {
+                Some(v) => v,
+                None => continue,
+            };
+            if val == "none" {
+                continue;
+            }
+            if val.starts_with("error") {
+                acc.violations.push((format!("{} [{}]: {} failed: {}", job.name, phase, key, val), json!(m)));
+                continue;
+            }
+            match parse_ranges(val) {
+                Ok(r) => {
+                    if r.len() > 1 || (!r.is_empty() && (r[0].0 != 0 || r[0].1 < data.len() as u64)) {
+                        nontrivial = true;
+                    }
+                    if let Some(msg) = check_map(key, &r, &data) {
+                        acc.violations.push((format!("{} [{}]: {}", job.name, phase, msg), json!(m)));
+                    }
+                    if key == "merged" {
+                        if let Some(Ok(inp)) = m.get("extents").map(|e| parse_ranges(e)) {
+                            if let Some(msg) = check_merge(&inp, &r) {
+                                acc.violations.push((format!("{} [{}]: merge: {}", job.name, phase, msg), json!(m)));
+                            }
+                        }
+                    }
+                }
+                Err(e) => acc.errors.push(format!("{}: cannot parse {}: {}", job.name, key, e)),
+            }
+        }
+        if job.tmpfs && m.get("extents").map(|e| e != "none").unwrap_or(false) && !m.get("extents").map(|e| e.starts_with("error")).unwrap_or(false) {
+            // informational only: tmpfs has no FIEMAP, None is expected
+        }
+        if nontrivial {
+            acc.nontrivial += 1;
+        }
+        if acc.samples.len() < 3 {
+            acc.samples.push(format!("{} [{}]: extents={} merged={} segments={}", job.name, phase, m.get("extents").cloned().unwrap_or_default(), m.get("merged").cloned().unwrap_or_default(), m.get("segments").cloned().unwrap_or_default()));
+        }
+    }
+    let _ = std::fs::remove_file(&path);
+    let _ = std::fs::remove_file(&scratch);
+}
+
+pub fn run(ctx: &Ctx) -> Report {
+    let mut rep = Report::new(
+        "model_checking",
+        "(a) every sorted, non-overlapping extent list over the offset universe 0..U (with every shared-flag vector for short lists) through the real merge_extents; (b) real files: every {Data,Hole} string up to a length bound in 4 KiB units x tails {0,1,4095}, files of 31..100 extents, queried through map_extents, merge_extents(map_extents) and the next_sparse_segments walk immediately after writing and again after fsync, on ext4 and on tmpfs; oracle: ranges ordered and non-overlapping, every byte outside them reads zero; merged ranges cover the inputs, begin/end at input boundaries and add only gaps between inputs merged together; non-trivial = a map with more than one range or not spanning the whole file / a list of two or more extents",
+    );
+    let q = ctx.quick();
+    if ctx.pool.bins.apiprobe.is_empty() {
+        rep.machinery_errors.push("apiprobe not built".into());
+        return rep;
+    }
+    // (a) merge-all
+    let u = if q { 12 } else { 15 };
+    let mut evals = 0u64;
+    let mut nontrivial = 0u64;
+    let mut samples: Vec<serde_json::Value> = vec![];
+    for (uu, shared) in [(u, false), (if q { 6 } else { 7 }, true)] {
+        let mut args = vec!["merge-all".to_string(), uu.to_string()];
+        if shared {
+            args.push("shared".into());
+        }
+        match std::process::Command::new(&ctx.pool.bins.apiprobe).args(&args).output() {
+            Ok(out) if out.status.success() => {
+                for l in String::from_utf8_lossy(&out.stdout).lines() {
+                    if l.starts_with("lists ") {
+                        continue;
+                    }
+                    let (a, b) = match l.split_once(" => ") {
+                        Some(x) => x,
+                        None => {
+                            if l.ends_with(" =>") {
+                                (l.trim_end_matches(" =>"), "")
+                            } else {
+                                rep.machinery_errors.push(format!("unparsable merge-all line: {}", l));
+                                continue;
+                            }
+                        }
+                    };
+                    evals += 1;
+                    if b.starts_with("error") {
+                        rep.plain_violations.push((format!("merge_extents failed on [{}]: {}", a, b), json!({"input": a})));
+                        continue;
+                    }
+                    match (parse_ranges(a), parse_ranges(b)) {
+                        (Ok(i), Ok(o)) => {
+                            if i.len() >= 2 {
+                                nontrivial += 1;
+                            }
+                            if let Some(msg) = check_merge(&i, &o) {
+                                rep.plain_violations.push((format!("merge_extents([{}]) = [{}]: {}", a, b, msg), json!({"input": a, "output": b})));
+                            }
+                            // shared flag: a merged range is shared only if all its inputs are
+                            for (os, oe, osh) in &o {
+                                let parts: Vec<&(u64, u64, bool)> = i.iter().filter(|x| x.0 >= *os && x.1 <= *oe).collect();
+                                if *osh && parts.iter().any(|p| !p.2) {
+                                    rep.plain_violations.push((format!("merge_extents([{}]) = [{}]: range {}-{} marked shared although an input is not", a, b, os, oe), json!({"input": a, "output": b})));
+                                }
+                            }
+                            if samples.len() < 3 && i.len() >= 3 {
+                                samples.push(json!(format!("merge_extents([{}]) = [{}]", a, b)));
+                            }
+                        }
+                        _ => rep.machinery_errors.push(format!("unparsable merge-all line: {}", l)),
+                    }
+                }
+            }
+            Ok(out) => rep.machinery_errors.push(format!("apiprobe merge-all failed: {}", String::from_utf8_lossy(&out.stderr))),
+            Err(e) => rep.machinery_errors.push(format!("apiprobe: {}", e)),
+        }
+    }
+    // (b) real files
+    let mut jobs: Vec<FileJob> = vec![];
+    for tmpfs in [false, true] {
+        for units in c01::all_layouts(if q { 5 } else { 8 }) {
+            for tail in [0u64, 1, 4095] {
+                let name: String = units.iter().map(|&b| if b { 'D' } else { 'H' }).collect();
+                jobs.push(FileJob { name: format!("{}+{}{}", name, tail, if tmpfs { "@tmpfs" } else { "@ext4" }), content: Content::Layout { unit: 4096, units: units.clone(), tail, seed: 21 }, tmpfs });
+            }
+        }
+        for n in if q { vec![31usize, 32, 33, 65] } else { vec![1, 31, 32, 33, 64, 65, 96, 97, 100] } {
+            jobs.push(FileJob { name: format!("{}-extents{}", n, if tmpfs { "@tmpfs" } else { "@ext4" }), content: c11::many_extents(n, 16384), tmpfs });
+        }
+        jobs.push(FileJob { name: format!("empty{}", if tmpfs { "@tmpfs" } else { "@ext4" }), content: Content::Bytes(String::new()), tmpfs });
+        jobs.push(FileJob { name: format!("dense-small{}", if tmpfs { "@tmpfs" } else { "@ext4" }), content: Content::Gen { len: 5000, seed: 1 }, tmpfs });
+    }
+    let njobs = jobs.len();
+    let accs = crate::explore::par_work(&ctx.pool, jobs, Acc::default, |w, job: FileJob, _more, acc: &mut Acc| {
+        check_file_maps(w, &job, acc);
+    });
+    for a in accs {
+        evals += a.evals;
+        nontrivial += a.nontrivial;
+        rep.plain_violations.extend(a.violations);
+        rep.machinery_errors.extend(a.errors);
+        for s in a.samples {
+            if samples.len() < 6 {
+                samples.push(json!(s));
+            }
+        }
+    }
+    rep.extra.insert("inprocess_evaluations".into(), json!(evals));
+    rep.extra.insert("inprocess_nontrivial".into(), json!(nontrivial));
+    rep.extra.insert("samples".into(), json!(samples));
+    rep.extra.insert("merge_universe".into(), json!(u));
+    rep.extra.insert("real_files".into(), json!(njobs));
+    rep.extra.insert("fiemap_substitution".into(), json!("not built: FIEMAP page shapes the real file system does not produce on demand (exactly 32 mapped without LAST, short page without LAST) are not enumerated; the 31/32/33/64/65 extent files cover the page boundaries the kernel does produce"));
+    rep.assumptions = vec!["libfs is called through apiprobe (path dependency on /repo/libfs), outside the supervisor: these are sequential pure functions / read-only queries".into()];
+    rep
 }
